@@ -74,7 +74,7 @@ class Simulation:
         fault_schedule: "FaultSchedule | None" = None,
         duration: float | None = None,
     ):
-        reset_event_counter()
+        event_counter = reset_event_counter()
 
         if duration is not None and end_time is not None:
             raise ValueError("Cannot specify both 'duration' and 'end_time'")
@@ -104,6 +104,7 @@ class Simulation:
         self._trace = trace_recorder or NullTraceRecorder()
         self._tracing_enabled = not isinstance(self._trace, NullTraceRecorder)
         self._event_heap = EventHeap(trace_recorder=self._trace)
+        self._event_heap._event_counter = event_counter
         self._summary: SimulationSummary | None = None
 
         # Run state — promoted from run() locals for re-entrancy
